@@ -10,6 +10,70 @@ use sighook_shim::alloc::SimAlloc;
 #[global_allocator]
 static ALLOC: SimAlloc = SimAlloc;
 
+/// Observation-only interposition of close(2): counts calls per descriptor number so that the
+/// "closed exactly once" clauses (C12, C13, C14) have a deterministic oracle even when a doubled
+/// close only hits an unused number.  The executable's symbol pre-empts libc's for every caller in
+/// the process (std, the libc crate, signal-hook).  `close_interposed()` self-checks that.
+pub mod closelog {
+    use std::sync::atomic::{AtomicU32, Ordering};
+    pub const N: usize = 4096;
+    #[allow(clippy::declare_interior_mutable_const)]
+    const Z: AtomicU32 = AtomicU32::new(0);
+    pub static CALLS: [AtomicU32; N] = [Z; N];
+    pub static OTHER: AtomicU32 = AtomicU32::new(0);
+    pub fn calls(fd: i32) -> u32 {
+        if fd >= 0 && (fd as usize) < N {
+            CALLS[fd as usize].load(Ordering::SeqCst)
+        } else {
+            0
+        }
+    }
+    pub fn interposed() -> bool {
+        let before = OTHER.load(Ordering::SeqCst);
+        unsafe { libc::close(-1) };
+        OTHER.load(Ordering::SeqCst) == before + 1
+    }
+}
+
+#[no_mangle]
+pub unsafe extern "C" fn close(fd: libc::c_int) -> libc::c_int {
+    use std::sync::atomic::Ordering;
+    if fd >= 0 && (fd as usize) < closelog::N {
+        closelog::CALLS[fd as usize].fetch_add(1, Ordering::SeqCst);
+    } else {
+        closelog::OTHER.fetch_add(1, Ordering::SeqCst);
+    }
+    libc::syscall(libc::SYS_close, fd) as libc::c_int
+}
+
+/// Deterministic getrandom(2): std seeds every thread's HashMap RandomState from it, and the
+/// registry's HashMap iteration (= drop) order would otherwise differ from run to run and from
+/// process to process, which breaks replay whenever drop order matters.  Nothing in the simulated
+/// process needs real entropy.
+#[no_mangle]
+pub unsafe extern "C" fn getrandom(buf: *mut libc::c_void, len: libc::size_t, _flags: libc::c_uint) -> libc::ssize_t {
+    use std::sync::atomic::Ordering;
+    use getrandom_state::CTR;
+    let p = buf as *mut u8;
+    for i in 0..len {
+        let mut x = CTR.fetch_add(0x9E3779B97F4A7C15, Ordering::Relaxed);
+        x = (x ^ (x >> 30)).wrapping_mul(0xBF58476D1CE4E5B9);
+        x = (x ^ (x >> 27)).wrapping_mul(0x94D049BB133111EB);
+        *p.add(i) = (x ^ (x >> 31)) as u8;
+    }
+    len as libc::ssize_t
+}
+
+pub mod getrandom_state {
+    use std::sync::atomic::{AtomicU64, Ordering};
+    pub static CTR: AtomicU64 = AtomicU64::new(0x243F6A8885A308D3);
+    /// Called at the start of every simulated process: the stream restarts, whatever the parent
+    /// drew before the fork.
+    pub fn reset() {
+        CTR.store(0x243F6A8885A308D3, Ordering::SeqCst);
+    }
+}
+
 mod chansim;
 mod driver;
 mod histsim;
@@ -33,6 +97,14 @@ fn main() {
         "check" if args.len() >= 4 => driver::cmd_check(&args[2], &args[3]),
         "replay" if args.len() >= 3 => driver::cmd_replay(&args[2]),
         "one" if args.len() >= 6 => driver::cmd_one(&args[2], &args[3], args[4].parse().unwrap(), args[5].parse().unwrap()),
+        "hashorder" => {
+            // self-test of the getrandom interposition: iteration order of a std HashMap
+            let m: std::collections::HashMap<i32, i32> = (0..12).map(|i| (i, i)).collect();
+            let t = std::thread::spawn(|| { let m: std::collections::HashMap<i32, i32> = (0..12).map(|i| (i, i)).collect(); m.keys().copied().collect::<Vec<_>>() }).join().unwrap();
+            println!("{:?} {:?}", m.keys().collect::<Vec<_>>(), t);
+            0
+        }
+        "detdiff" if args.len() >= 6 => driver::cmd_detdiff(&args[2], &args[3], args[4].parse().unwrap(), args[5].parse().unwrap()),
         "determinism" if args.len() >= 5 => driver::cmd_determinism(&args[2], &args[3], args[4].parse().unwrap()),
         _ => usage(),
     };
